@@ -39,6 +39,9 @@ def main():
     a = ap.parse_args()
     patch, demo = os.path.abspath(a.patch), os.path.abspath(a.demo)
     meta = {"property": a.prop, "label": a.label, "needs_to_manifest": a.needs, "ran": []}
+    old_meta = os.path.join(VERIF, "seeded", a.prop + a.label, "meta.json")
+    if not a.needs and os.path.exists(old_meta):
+        meta["needs_to_manifest"] = json.load(open(old_meta)).get("needs_to_manifest", "")
     ok = True
     if not a.skip_validate:
         wt = tempfile.mkdtemp(prefix="seedval-", dir="/tmp")
@@ -105,8 +108,9 @@ def main():
     if a.store and (ok or a.skip_validate):
         d = os.path.join(VERIF, "seeded", a.prop + a.label)
         os.makedirs(d, exist_ok=True)
-        shutil.copy(patch, os.path.join(d, "patch.diff"))
-        shutil.copy(demo, os.path.join(d, "demo.py"))
+        for src, name in ((patch, "patch.diff"), (demo, "demo.py")):
+            if os.path.abspath(src) != os.path.join(d, name):
+                shutil.copy(src, os.path.join(d, name))
         json.dump(meta, open(os.path.join(d, "meta.json"), "w"), indent=1)
     return 0
 
